@@ -580,4 +580,67 @@ example :
     (config [.gzipDisabled, .brotliLevel 3]).toCfg.gzip = false := by decide
 
 
+/-! ### a middleware in front that uses the writer first (open finding K15r) -/
+
+theorem runWithFrom_nil (sn : Sniff) (cfg : Cfg) (path ae : Bytes) (h0 : Hdrs) (ops : List Op) :
+    runWithFrom sn cfg path ae h0 [] ops = runWith sn cfg path ae h0 ops := rfl
+
+theorem lemma_preBase (sn : Sniff) (h0 : Hdrs) (pre : List Op) (hp : preCommits pre = false) :
+    ∃ h, preBase sn h0 pre = { live := h } := by
+  unfold preBase
+  generalize hb : ({ live := h0 } : Base) = b
+  have hb' : ∃ h, b = { live := h } := ⟨h0, hb.symm⟩
+  clear hb
+  induction pre generalizing b with
+  | nil => simpa [runOps] using hb'
+  | cons o os ih =>
+    obtain ⟨h, rfl⟩ := hb'
+    simp only [preCommits, List.any_cons, Bool.or_eq_false_iff] at hp
+    have hos : preCommits os = false := by simpa [preCommits] using hp.2
+    simp only [runOps]
+    cases o with
+    | setH k vs => exact ih hos _ ⟨_, rfl⟩
+    | delH k => exact ih hos _ ⟨_, rfl⟩
+    | writeHeader c =>
+      have hi : informational c = true := by simpa using hp.1
+      have hvc : validCode c = true := by
+        simp only [informational, validCode, Bool.and_eq_true, decide_eq_true_eq] at hi ⊢
+        omega
+      apply ih hos
+      exact ⟨h, by simp [plainStep, Base.writeHeader, hi, hvc]⟩
+    | write d => simp at hp
+    | flush => simp at hp
+    | copy cs => simp at hp
+    | panic => simp at hp
+
+/-- **C15 behind a middleware that only prepares headers / sends informational responses**: as long as the middleware in
+    front has not committed the response (`preCommits pre = false`), the exchange is transparent — `transparent` on the
+    header map that middleware leaves behind. Partial: excludes the class of the open finding K15r. -/
+theorem transparent_after_prelude_partial (sn : Sniff) (cfg : Cfg) (path ae : Bytes) (h0 : Hdrs) (pre ops : List Op)
+    (hp : preCommits pre = false) (hv : ∀ o ∈ ops, OpValid o) (hnp : ops.any isPanicOp = false) :
+    ∃ h, preBase sn h0 pre = { live := h } ∧
+      runWithFrom sn cfg path ae h0 pre ops = runWith sn cfg path ae h ops ∧
+      Transparent (active cfg path ae h) (runWith sn cfg path ae h ops) (runPlain sn h ops) := by
+  obtain ⟨h, hh⟩ := lemma_preBase sn h0 pre hp
+  refine ⟨h, hh, ?_, transparent sn cfg path ae h ops hv hnp⟩
+  unfold runWithFrom runPlainFrom finalCWFrom
+  simp only [hh]
+  rfl
+
+/-- K15r, open: a middleware in front sets the status before the chain goes on (`c.Status(201)`); the handler then writes
+    text; the middleware compresses it — and the header block, committed before Content-Encoding was set, does not
+    announce the coding. The prelude is in the class `preCommits`. -/
+theorem open_pre_committed_witness :
+    let pre := [Op.writeHeader 201]
+    let ops := [tp, .write "hello hello hello".toList]
+    let w := (finalCWFrom sn0 (cfg0 0) gz (preBase sn0 [] pre) ops).1
+    w.unlabelled sn0 = true ∧ hget (w.base.finish sn0).resp.hdrs kCE = none ∧ (w.base.finish sn0).resp.status = 201 ∧
+    w.plain = "hello hello hello".toList ∧
+    (runPlainFrom sn0 [] pre ops).1.resp.body = "hello hello hello".toList ∧ preCommits pre = true := by decide
+
+/-- non-vacuity of `transparent_after_prelude_partial`: headers and an Early Hints response in front -/
+example : preCommits [Op.setH "Link".toList ["</s.css>; rel=preload".toList], .writeHeader 103, .delH "X-Tmp".toList] = false := by
+  decide
+
+
 end Rivaas.C15
